@@ -374,8 +374,32 @@ def run(root, pid, tier, seed, replay):
         traceback.print_exc()
         print('ERROR: check machinery failed:', e)
         return 2
-    violations += found
     _known_keys = set(k['key'] for k in known if k['property'] == pid)
+    if not pr['ok'] and not replay and replay_key is None and tier == 'quick' \
+            and not any(not v.get('no_input') and v['key'] not in _known_keys for v in found):
+        # a proof obligation (or the build of the generated model) broke and the quick stream met no failing input:
+        # widen the search before reporting no-failing-input-found — three more quick streams with other seeds
+        for extra in (1, 2, 3):
+            ctx['seed'] = seed + 7919 * extra
+            ctx['notes'].append('proof obligation broken: additional search stream with seed %d' % ctx['seed'])
+            try:
+                more = P['run'](ctx)
+            except HarnessCrash as hc:
+                more = [{'key': input_key(hc.inp), 'kind': 'process-killed',
+                         'text': 'the library killed the process while the harness command %s ran the recorded input: %s' % (hc.cmd, ' '.join(hc.msg.split())[:300]),
+                         'detail': {'corpus_entry': hc.inp, 'fatal': hc.msg}}]
+            except Exception as e:
+                print('ERROR: additional search stream failed:', e)
+                break
+            for v in more:
+                v.setdefault('detail', {})
+                if isinstance(v['detail'], dict):
+                    v['detail']['search_seed'] = ctx['seed']
+            found += more
+            if any(not v.get('no_input') and v['key'] not in _known_keys for v in more):
+                break
+        ctx['seed'] = seed
+    violations += found
     if violations and violations[0].get('kind') == 'proof-broken' and any(not v.get('no_input') and v['key'] not in _known_keys for v in found):
         # the search found concrete failing inputs for the broken obligation: they are reported below
         violations[0]['no_input'] = False
@@ -410,7 +434,7 @@ def run(root, pid, tier, seed, replay):
         fn = os.path.join(repdir, '%s%s-%d-%d.json' % ('replayed-' if (replay or replay_key is not None) else '', tier, seed, n_rep))
         with open(fn, 'w') as f:
             json.dump({'property': pid, 'key': v['key'], 'kind': v.get('kind'), 'text': v['text'],
-                       'detail': v.get('detail'), 'stream': {'tier': tier, 'seed': seed}, 'replay_cmd': './check %s --replay %s' % (pid, fn)}, f, indent=1, default=str)
+                       'detail': v.get('detail'), 'stream': {'tier': tier, 'seed': (v.get('detail') or {}).get('search_seed', seed) if isinstance(v.get('detail'), dict) else seed}, 'replay_cmd': './check %s --replay %s' % (pid, fn)}, f, indent=1, default=str)
         suffix = ' no-failing-input-found' if v.get('no_input') else ''
         print('VIOLATION property=%s replay=%s%s' % (pid, fn, suffix))
         print('  ' + v['text'][:300])
